@@ -124,7 +124,7 @@ def expected(oracle, pid, layout, contents):
     return exp
 
 
-def build_tensors(layout, contents, gseed, perm_seed=None, expand_query=False, extreme=False):
+def build_tensors(layout, contents, gseed, perm_seed=None, expand_query=False, extreme=False, offset=0.0):
     """-> query, key, value, mask (mask True = keep); T at position d of key/value/mask"""
     ks, qs, T, d = layout["ks"], layout["qs"], layout["T"], layout["d"]
     g = torch.Generator().manual_seed(gseed)
@@ -149,7 +149,9 @@ def build_tensors(layout, contents, gseed, perm_seed=None, expand_query=False, e
             idx = tuple(i[:d]) + (pos,) + tuple(i[d:])
             if (t + 1) in kc["keep"]:
                 mask[idx] = True
-                key[idx] = torch.tensor([math.log(b) for b in kc["kb"][t]], dtype=DT)
+                # offset: the same vector added to every KEPT key shifts all of a query's scores by one amount that does
+                # not depend on the position (Attention!ScaleInvariant: a common factor of the weights cancels)
+                key[idx] = torch.tensor([math.log(b) + offset for b in kc["kb"][t]], dtype=DT)
                 value[idx] = torch.tensor([float(v) for v in kc["val"][t]], dtype=DT)
     fq = layout["qshape"][-1]
     query = torch.zeros(list(qs) + [fq], dtype=DT)
@@ -270,6 +272,9 @@ def run_case(ctx, oracle, layout, pid, contents, seed, use_mask=True, replaying=
         variants.append(("expanded", dict(gseed=seed + 3, expand_query=True)))
     if use_mask:
         variants.append(("garbageX", dict(gseed=seed + 11, extreme=True)))
+        # kept scores far below / above anything a finite stand-in for "minus infinity" could be
+        variants.append(("offset-", dict(gseed=seed + 13, offset=-1.0e5)))
+        variants.append(("offset+", dict(gseed=seed + 17, offset=1.0e5)))
     first_bad = None
     for name, kw in variants:
         q, k, v, m = build_tensors(layout, contents, **kw)
@@ -289,7 +294,8 @@ def run_case(ctx, oracle, layout, pid, contents, seed, use_mask=True, replaying=
         if kind == "value":
             if first_bad is None and name != "garbageA":
                 # the first run matched the spec: the failure is a dependence on what varied
-                kind = {"garbageB": "masked_content_dependence", "garbageX": "masked_content_dependence", "permuted": "permutation_dependence",
+                kind = {"garbageB": "masked_content_dependence", "garbageX": "masked_content_dependence",
+                        "offset-": "score_offset_dependence", "offset+": "score_offset_dependence", "permuted": "permutation_dependence",
                         "expanded": "broadcast_differs_from_expand"}[name]
             elif dim < 0:
                 kind = "value_negative_dim"
